@@ -136,3 +136,4 @@ def frame_letter(fr):
         return "UNK"
     except IndexError:
         return "UNK"
+from ties import of as _tie_of; TIE_LAYOUTS, TIE_PINS, TIE_ENUMS = _tie_of("C11")   # static-tie lemmas (coq/Gen/Tie) this property depends on
